@@ -354,13 +354,8 @@ def d4_whole_file_rewrites(ctx):
                                                      for v, _ in defs_of(f.node, r.value.id)):
                 continue
             # a non-parsed return is only allowed directly under `not <path>.exists()`
-            ok = False
-            for p, field in enclosing(f.node, r):
-                if isinstance(p, ast.If) and field == 'body':
-                    t = p.test
-                    ok = isinstance(t, ast.UnaryOp) and isinstance(t.op, ast.Not) and is_exists_call(t.operand) \
-                        and t.operand.func.attr == 'exists'
-                    break
+            from ._shared import default_only_when_absent
+            ok = default_only_when_absent(f, r)
             ctx.decide(ok, 'R-BELIEF', 'D4', f, r, f'default-return::{norm(r)[:30]}',
                        f'{f.qualname}: a default value is returned only when the file does not exist',
                        detail='a file that exists but is empty/unparsable (torn write) is turned into a '
